@@ -3,6 +3,7 @@
    pruning, exclusion test, lexer-by-name oracle) and Fs/Exclude.v (gitignore matcher
    for the five pattern classes, compared with pathspec on every generated case). *)
 From Verif Require Import Base Codebase Exclude GenScan FsScan FsProofsWalk.
+From Verif Require Import GenCompare TieProofs.
 From Coq Require Import Relations.
 Open Scope Z_scope.
 
@@ -48,7 +49,15 @@ Theorem C11_exclusion_semantics : forall patterns line comps,
    excluded patterns comps = existsb (fun l => matches (classify l) comps) patterns).
 Proof. intros. split; [apply excluded_last_decides|apply excluded_without_negation]. Qed.
 
+(* the hidden-name test of the model is the one scan_path and check_command state (regenerated from Scanner.py and
+   check.py on this run): a file or directory is skipped exactly when its name starts with "." *)
+Theorem C11_hidden_rule_tied : forall c r,
+  negb (is_hidden (c :: r)) = scan_keeps_file c /\ negb (is_hidden (c :: r)) = scan_keeps_dir c /\
+  negb (is_hidden (c :: r)) = check_keeps_file c /\ negb (is_hidden (c :: r)) = check_keeps_dir c.
+Proof. exact tie_hidden_rule. Qed.
+
 Print Assumptions C11_iff.
+Print Assumptions C11_hidden_rule_tied.
 Print Assumptions C11_exclusion_semantics.
 Print Assumptions C11_key_language_checksum.
 Print Assumptions C11_once.
